@@ -48,4 +48,21 @@ PROPS = {
         "trusted_base": BASE_TRUST + ["the decode call itself is abstracted to 'consumes exactly the surface length' (that is C06's theorem and check)"],
         "assumptions": ["mip count is NonZeroU32 (>= 1)", "reader is an in-memory cursor: seeks fail only for amounts above i64::MAX or negative positions"],
     },
+    "C06": {
+        "kernel_sample": 300,
+        "rule": "73 formats x seeded surfaces 1..70 (all residues of the block sizes) x full / rect (incl. empty, out-of-bounds) x 12 colours x memory limits "
+                "{default, 0, 1, 1 KiB, 64 KiB, each allocation boundary -1/+0, need+1} x reader behaviours {whole, 1-byte, random short, Interrupted} x "
+                "{complete data, truncated at a random offset, hard error at byte k, trailing data} x start offsets, plus for small surfaces a fault / EOF at every byte offset; "
+                "observed: verdict, reader position, coalesced reader effects (skip/read amounts), heap requests >= 128 B; distinct = distinct case lines",
+        "trusted_base": BASE_TRUST + ["std::io::Read::read_exact / io::copy / Seek contracts; the test reader allows seeking past the end like io::Cursor and File"],
+        "assumptions": ["pixel values are outside this layer (C03-C05)", "allocation requests below 128 bytes (error values) are ignored in the comparison but bounded by an implementation-only oracle"],
+    },
+    "C07": {
+        "kernel_sample": 300,
+        "rule": "73 formats x {4096x4096, 65536x1, 1x65536, 65537x3, 3x65537, 16385x2, 70000x2, ... and seeded sizes 1..70} x full / rect x 12 colours x every memory limit in "
+                "{default, 0, 1, 1 KiB, 64 KiB, each allocation boundary -1/+0, need+1}; observed: verdict, ordered heap request sizes >= 128 B of a counting global allocator, reader effects; "
+                "implementation-only oracle: peak live bytes <= limit + 4 KiB and < 4 KiB of small unbudgeted requests; distinct = distinct case lines",
+        "trusted_base": BASE_TRUST + ["allocator rounding / capacity growth is the runtime's; try_reserve_exact requests exactly the length"],
+        "assumptions": ["big surfaces are decoded from an empty source: every allocation happens before the first read (C06_allocs_first), so the requests are still observed"],
+    },
 }
